@@ -34,6 +34,11 @@ func FetchCursor(ctx context.Context, scope *ReferenceScope, name parser.Identif
 		return false, err
 	}
 	if primaries == nil {
+		for _, v := range vars {
+			if _, err := scope.SubstituteVariableDirectly(v, value.NewNull()); err != nil {
+				return false, err
+			}
+		}
 		return false, nil
 	}
 	if len(vars) != len(primaries) {
